@@ -28,6 +28,9 @@ var (
 	MemoryFn func(owner interface{}, actual uint64) uint64
 	// DialerFn, if set, supplies the dialer for outbound RPC connections.
 	DialerFn func(dest string) func(context.Context, string) (net.Conn, error)
+	// ServerDialerFn, if set, supplies the dialer that a server (owner) uses
+	// for its outbound RPC connections to dest.
+	ServerDialerFn func(owner interface{}, dest string) func(string, time.Duration) (net.Conn, error)
 	// HTTPTransportFn, if set, supplies the transport for outbound HTTP.
 	HTTPTransportFn func() http.RoundTripper
 )
@@ -85,6 +88,15 @@ func Memory(owner interface{}, actual uint64) uint64 {
 func Dialer(dest string) func(context.Context, string) (net.Conn, error) {
 	if fn := DialerFn; fn != nil {
 		return fn(dest)
+	}
+	return nil
+}
+
+// ServerDialer returns the simulator's dialer for the server's connections to
+// dest, or nil.
+func ServerDialer(owner interface{}, dest string) func(string, time.Duration) (net.Conn, error) {
+	if fn := ServerDialerFn; fn != nil {
+		return fn(owner, dest)
 	}
 	return nil
 }
